@@ -499,9 +499,16 @@ type funcFile struct {
 
 const funcFileEnv = "C08_FUNCFILE"
 
-func saveFuncFile() {
-	if runsCases() {
-		return // only the driver process publishes its list
+func saveFuncFile() { publishFuncs(false) }
+
+// publishFuncs writes the list for child processes; unless forced only the
+// driver process does so.
+func publishFuncs(force bool) {
+	if !force && runsCases() {
+		return
+	}
+	if funcFilePath != "" || os.Getenv(funcFileEnv) != "" && !force {
+		return
 	}
 	var ff funcFile
 	ff.Notes = discNotes
